@@ -5,3 +5,28 @@ pub fn s<const N: usize>(b: [u8; N]) -> String {
     // callers constrain `b` to ASCII or to a fixed UTF-8 layout
     unsafe { String::from_utf8_unchecked(b.to_vec()) }
 }
+
+use grass_compiler::codemap::Span;
+
+/// A span `[1, 1+len)` without building a `CodeMap` (the layout of `Span` is two `u32` positions;
+/// checked by the size assertion). Only used where no file lookup happens.
+pub fn span(len: u32) -> Span {
+    assert!(core::mem::size_of::<Span>() == 8);
+    unsafe { core::mem::transmute::<[u32; 2], Span>([1, 1 + len]) }
+}
+
+pub fn span_bounds(s: Span) -> (u32, u32) {
+    let a = unsafe { core::mem::transmute::<Span, [u32; 2]>(s) };
+    (a[0], a[1])
+}
+
+/// Fixed keys for `RandomState::new` (Kani cannot execute the getrandom syscall).
+pub fn fixed_random_state() -> std::hash::RandomState {
+    assert!(core::mem::size_of::<std::hash::RandomState>() == 16);
+    unsafe { core::mem::transmute::<[u64; 2], std::hash::RandomState>([7, 11]) }
+}
+
+/// Stub for `alloc::fmt::format` where message text is not the subject of the harness.
+pub fn fmt_stub(_args: core::fmt::Arguments<'_>) -> String {
+    String::new()
+}
